@@ -62,7 +62,7 @@ add("C05", True,
 add("C06", True,
     "property-based testing over generated total-tree pipelines (proptest) with an independent exact feasibility oracle for every surviving node and a brute-force region count of the unpruned twin",
     "For pipelines of apply_func / compose (pruned, unpruned) / elimination on total trees: after every elimination no surviving non-root node may have an exactly empty closed path polytope (exact LP; margin made explicit), no non-root decision a single branch, a second run must leave the arena bit-identical with 0 infeasible LPs, and the final terminal count must lie between the number of regions with a 1e-6 ball and the number of regions not empty by a margin of the unpruned composition. Exploration: <= 10 ops, dims <= 3.",
-    PWL_NOTE + " Known finding C06/single_branch_after_rejected_lp_witness is excluded only when the affected node is still Indeterminate.", "DESIGN.md 6/C06")
+    PWL_NOTE + " (The former known finding C06/single_branch_after_rejected_lp_witness is fixed in /repo; a recurrence is a violation.)", "DESIGN.md 6/C06")
 add("C07", True,
     "property-based testing (proptest): every operator variant's result is decided equal to the coefficient-wise lifting of the reference operands on all full-dimensional cells (exact LP) plus exact boundary inputs",
     "For generated operand pairs (total/partial, shared anchors) all four operators in four ownership variants, negation and twelve affine-on-either-side forms are compared with the reference lifting (operand order respected), cell by cell and at boundary inputs (thin rule only for the tree-tree operators, which prune on the fly). Exploration: dims <= 3, depth <= 4.",
